@@ -272,6 +272,105 @@ def c10(run, vc):
                       assumptions=["symbolic model; Hy is a random oracle", "virtual clock hook (--cfg blsful_verif) replaces SystemTime::now in the two timestamp functions"])
 
 
+# ------------------------------------------------------------------------------------ C15 / C16 / C17 (Codec)
+def _codec(run, vc, keep, label, build="release", tables=None, tag=""):
+    tier = run.tier
+    if tables is None:
+        tables = _prep(run, vc, build=build)
+    cfg = "MC_Codec_%s.cfg" % tier
+    r, bad = _tlc_stage(run, vc, "MC_Codec", cfg, [("Codec", "Ok"), ("Codec", "Err"), "IsZero"], timeout=7200)
+    if bad:
+        return None, tables
+    vecs = [v for v in r["vectors"] if keep(v)]
+    types = {v["type"] for v in vecs if v["act"] == "Codec"}
+    if len(types) < 28:
+        raise vc.ToolError("vacuity: only %d of the 28 types produced vectors" % len(types))
+    _sample(run, vecs)
+    s = vc.replay(vecs, run.prop.lower() + tag, tables, profiles="5", build=build)
+    run.add_replay(s, label, vecs, lambda v: v["act"] == "IsZero" or v["mut"]["kind"] != "none")
+    return vecs, tables
+
+
+def _fuzz_trace(run, vc, tables, iters, build="release"):
+    tp, n, dt = vc.record("fuzz", run.prop.lower() + "_fuzz_" + build, iters, build=build, extra=["--tables", tables])
+    ok, at, ev, dt2, states = vc.validate_trace("Trace_Codec", tp, run.prop.lower() + "_fuzz")
+    execs = 0
+    with open(tp) as f:
+        for line in f:
+            e = json.loads(line)
+            execs += e.get("count", 0)
+    run.stages.append({"stage": "trace", "driver": "fuzz", "spec": "Trace_Codec", "build": build, "class_events": n, "executions_behind_them": execs,
+                       "accepted": ok, "record_wall_s": round(dt, 1), "tlc_wall_s": round(dt2, 1)})
+    run.states += states
+    run.transitions += states
+    if ok:
+        run.traces += 1
+        run.trace_events += execs
+    else:
+        keep = os.path.join(vc.REPLAYS, run.prop)
+        os.makedirs(keep, exist_ok=True)
+        kp = os.path.join(keep, "trace_fuzz_%s_seed%d.ndjson" % (build, vc.SEED))
+        import shutil
+        shutil.copy(tp, kp)
+        run.violations.append(("trace", {"why": "decoder trace rejected by Trace_Codec at event %d: %s" % (at, json.dumps(ev)[:300]), "event": ev, "at": at, "trace": kp, "driver": "fuzz", "build": build}))
+    return ok
+
+
+def c15(run, vc):
+    vecs, tables = _codec(run, vc, lambda v: v["act"] == "Codec" and v["mut"]["kind"] == "none", "round trip of every type x codec x variant x value class, all container conversions, determinism, layout lengths")
+    if vecs is not None:
+        _fuzz_trace(run, vc, tables, 60 if run.tier == "quick" else 600)
+    return run.finish(rule="vectors = every (type, codec, variant, value class) of the Codec model with no mutation: 28 types x {byte conversion, serde_bare, serde_json} x scheme / curve variants x value classes {generic, identity point, scalar 1 / r-1, empty / large payload, share ids}; derived = the four container conversions, owned/borrowed encoders, determinism, encoded length vs layout; trace = random values of every type through every codec, validated by TLC (Trace_Codec.TRoundTrip)",
+                      assumptions=["field layout in spec/Layout.tla"])
+
+
+def c16(run, vc):
+    vecs, tables = _codec(run, vc, lambda v: v["act"] == "Codec" and v["mut"]["kind"] != "none", "structure-aware mutations of every field of every type in all three decoders; share containers judged at use")
+    if vecs is not None:
+        _fuzz_trace(run, vc, tables, 300 if run.tier == "quick" else 3000)
+    return run.finish(rule="vectors = every (type, codec, mutation) of the Codec model: truncation at every field boundary (+-1) and at every length, extension, every point field replaced by {off-subgroup, valid+torsion, x without point, x >= p, cleared compression flag, infinity flag, identity}, every scalar field by {0, 1, r-1, r, r+5, 2^256-1, 0x80}, every tag byte, share ids {0, 255}, length prefixes {+1, huge, overlong}, JSON hex leaves {non-hex, odd, short, long, empty, upper}; decoded values are fed to every consumer; trace = random / bit-flipped / byte-replaced / truncated / extended / spliced inputs to every decoder, judged by an independent point classifier and validated by TLC per (type, codec, class, outcome)",
+                      assumptions=["invalid point encodings constructed with bls12_381_plus unchecked decompression", "field layout in spec/Layout.tla"])
+
+
+def c17(run, vc):
+    tier = run.tier
+    tables = _prep(run, vc)
+    vc.log("[C17] building the checked harness (overflow checks + debug assertions)")
+    vc.build_harness("checked")
+    for build in ("release", "checked"):
+        vecs, _ = _codec(run, vc, lambda v: True, "every decoder outcome and every consumer, build=%s: no abort" % build, build=build, tables=tables, tag="_" + build)
+        if vecs is None:
+            return run.finish()
+        _fuzz_trace(run, vc, tables, 300 if tier == "quick" else 3000, build=build)
+    # abort sites of the protocol modules, on the checked build: crafted length prefixes inside valid
+    # ciphertexts, empty payloads, every timestamp / timeout class
+    r, bad = _tlc_stage(run, vc, "MC_SignCrypt", "MC_SignCrypt_%s.cfg" % tier, ["Decrypt"], timeout=7200)
+    if bad:
+        return run.finish()
+    sc = [v for v in r["vectors"] if v["act"] in ("Decrypt", "IsValid") and any(o["op"] in ("CraftFrame", "VTrunc", "VExtend", "UWId") for o in v["ct"]["ops"])]
+    if not any(o["op"] == "CraftFrame" for v in sc for o in v["ct"]["ops"]):
+        raise vc.ToolError("vacuity: no crafted-frame vector")
+    def only_aborts(s):
+        s["failures"] = [f for f in s["failures"] if "abort" in json.dumps(f.get("observed", {})) or "abort" in f.get("why", "")]
+        return s
+    s = only_aborts(vc.replay(sc, "c17_sc", tables, profiles="5", build="checked"))
+    run.add_replay(s, "signcryption: crafted length prefixes in valid ciphertexts, truncated / empty / extended payloads (checked build)", sc, lambda v: True)
+    r, bad = _tlc_stage(run, vc, "MC_TimeLock", "MC_TimeLock_%s.cfg" % tier, ["TLDecrypt"], timeout=7200)
+    if bad:
+        return run.finish()
+    tl = [v for v in r["vectors"] if v["act"] == "TLDecrypt" and v["rightsig"] and any(o["op"] == "W" for o in v["ct"]["ops"])]
+    s = only_aborts(vc.replay(tl, "c17_tl", tables, profiles="5", build="checked"))
+    run.add_replay(s, "time-lock: every W region flipped / truncated to every length / emptied / extended (checked build)", tl, lambda v: True)
+    r, bad = _tlc_stage(run, vc, "MC_Pok", "MC_Pok_%s.cfg" % tier, ["PokTs"], timeout=7200)
+    if bad:
+        return run.finish()
+    pk = [v for v in r["vectors"] if v["act"] == "PokTs"]
+    s = only_aborts(vc.replay(pk, "c17_pok", tables, profiles="5", build="checked"))
+    run.add_replay(s, "timestamp proofs: every timestamp class x delay x timeout (checked build)", pk, lambda v: True)
+    return run.finish(rule="vectors = every transition of the Codec model (all mutations incl. every truncation length, every consumer of every decoded value, all 256 byte-OR values of the zero test at 6 import sites) on the plain release build and on a build with overflow checks and debug assertions; plus, on the checked build, the abort sites of the protocol modules: crafted LEB128 prefixes inside valid signcryption ciphertexts, truncated / empty / extended payloads, every W region of time-lock ciphertexts, every (timestamp, delay, timeout) class; trace = random and mutated inputs to every decoder on both builds, validated by TLC (no Abort outcome exists in the specification)",
+                      assumptions=["panics are observed under catch_unwind; non-termination would show as a timeout (exit 2)", "dependency calls are total per their contract"])
+
+
 # ------------------------------------------------------------------------------------ traces
 def _trace_signet(run, vc, tables, name, events, mix="all"):
     """implementation -> spec: record a random walk of the real library, validate with TLC."""
@@ -280,4 +379,4 @@ def _trace_signet(run, vc, tables, name, events, mix="all"):
     vc.record_and_validate(run, "signet", "Trace_SigNet", name, events, tables, mix=mix)
 
 
-CHECKS = {"C01": c01, "C02": c02, "C06": c06, "C07": c07, "C08": c08, "C09": c09, "C10": c10, "C11": c11, "C12": c12, "C13": c13, "C14": c14}
+CHECKS = {"C01": c01, "C02": c02, "C06": c06, "C07": c07, "C08": c08, "C09": c09, "C10": c10, "C11": c11, "C12": c12, "C13": c13, "C14": c14, "C15": c15, "C16": c16, "C17": c17}
